@@ -321,8 +321,15 @@ def md_unit(ctx, src, name):
     # the stub members each function really calls (a contract can only replace a function that occurs in the goto model)
     called = lambda text: sorted(set('C10_writer_' + m for m in re.findall(r'\bC10_writer_(init|write|put_u8|put_u32l|put_u32b|extend_to|pput_u64l|pput_u64b|pput_u32l|pput_u32b|pput_u16l|pput_u16b|pput_u8)\(', text)))
     u.ctor_stubs, u.bin_stubs = called(ctext), called(btext)
+    # hex(): either one string_printf with N conversions (contract-only stub per arity), or a string assembled piecewise from
+    # single-conversion string_printf results (executable single-conversion model, stubs/C10_writer.h); a constant-bound loop
+    # in it is unwound completely by the group's cbmc flags
     u.function(src, HCC, A['hex'], new_header='void %s_hex(const %s* self, C10_hexstr* ret)' % (name, name),
-               rules=[Rule('return string_printf(', 'C10_string_printf_%d(ret, ' % A['nw'], count=1)])
+               rules=[Rule('return string_printf(', 'C10_string_printf_%d(ret, ' % A['nw'], count=None),
+                      Rule(r'\bstring ret;', 'ret->size = 0;', count=None, regex=True),
+                      Rule(r'\bret (?:\+=|\.append\()\s*string_printf\(([^;]*?)\)\)?;', r'{ C10_hexstr verif_piece; C10_string_printf_1(&verif_piece, \1); C10_hexstr_append(ret, &verif_piece); }',
+                           count=None, regex=True),
+                      Rule(r'\breturn ret;', 'return;', count=None, regex=True)], must_loops=False)
     return u
 
 
@@ -352,7 +359,7 @@ def md_groups(ctx, name, u):
                     replace=u.bin_stubs, defines=D, min_post=2,
                     replay=Replay(mode=low + '_bin', **RP)))
     gs.append(Group(name='Hash.%s.hex' % name, harness=H, entry='h_hex', function='%s::hex' % name, enforce='%s_hex' % name,
-                    replace=['C10_string_printf_%d' % A['nw']], defines=D, min_post=2,
+                    replace=['C10_string_printf_%d' % A['nw']], defines=D, min_post=2, cbmc_flags=['--unwind', '12', '--unwinding-assertions'],
                     replay=Replay(mode=low + '_hex', **RP)))
     if name == 'SHA256':
         gs.append(Group(name='Hash.rotate_right', harness=H, entry='h_rotate_right', function='rotate_right', enforce='rotate_right',
